@@ -87,9 +87,26 @@ Definition result_sx (r : result) : sx :=
 Definition persist_sx (p : persist) : sx :=
   SL [SB (p_has_session p); SS (p_sm_id p); SN (p_inbound p); SB (p_has_queue p); SS (p_bind_jid p)].
 
+(* During the traffic phase the scripted server sends <r/> after the stanzas number
+   1, 4, 7, ... of the connection: the answers the receive loop (Model/Recv.v) writes
+   carry the count before the traffic plus the stanzas received so far. *)
+Fixpoint answers_from (base : N) (k : nat) (left : nat) : list sx :=
+  match left with
+  | O => []
+  | S l => (if Nat.eqb (Nat.modulo k 3) 0 then [SN (base + N.of_nat k + 1)] else []) ++ answers_from base (S k) l
+  end.
+
+Fixpoint run_conns_sx (cfg : config) (p : persist) (cs : list conn) : list sx :=
+  match cs with
+  | [] => []
+  | c :: cs' =>
+      let '(w, r, p1) := connect cfg (k_dial c) (k_tls c) p (k_script c) in
+      let p2 := match r with Ok => add_inbound p1 (k_traffic c) | _ => p1 end in
+      let ans := match r with Ok => answers_from (p_inbound p1) 0 (N.to_nat (k_traffic c)) | _ => [] end in
+      SL [SL (map out_sx w); result_sx r; persist_sx p2; SL ans] :: run_conns_sx cfg p2 cs'
+  end.
+
 Definition run_typed (i : config * bool * list conn) : sx :=
-  let '(cfg, sme, cs) := i in
-  SL (map (fun wrp => SL [SL (map out_sx (fst (fst wrp))); result_sx (snd (fst wrp)); persist_sx (snd wrp)])
-          (run_conns cfg (fresh sme) cs)).
+  let '(cfg, sme, cs) := i in SL (run_conns_sx cfg (fresh sme) cs).
 
 Definition run_session : sx -> sx := with_input dec_input run_typed.
